@@ -6,6 +6,7 @@ Line-protocol front end for the filter machines (C20).
   c20 <filter> <call>*                    -> one outcome per call, `;`-joined (`.` when no calls);
                                              for a chain `A>B`: outcomes of A alone `|` outcomes of the chain
   c20judge <filter> <call>* | <outcome>*  -> pass | fail   (C20.spec on an observed run; no chains)
+  c20m <filter> <inst>=<call> …           -> outcomes when several filter objects built by the same expression are called in turn
 
   filter  : oc | db:<n> | th:<secs> | de | ag:<secs>:<t0> | cu:always | cu:never | cu:ge:<k> | cu:notnum | A>B
   call    : <t>@<val>         t, secs, t0 in ticks (Int)
@@ -82,6 +83,11 @@ def parseFilter (s : String) : Option Filter :=
   | [a, b] => do pure (.chain (← parseBase a) (← parseBase b))
   | _ => none
 
+def parseICall (s : String) : Option ICall :=
+  match s.splitOn "=" with
+  | [i, c] => do pure ⟨← i.toNat?, ← parseCall c⟩
+  | _ => none
+
 def filterOps : List String → Option String
   | "c20" :: f :: calls => do
     let f ← parseFilter f
@@ -89,6 +95,10 @@ def filterOps : List String → Option String
     match f with
     | .chain a _ => pure (showOuts (a.machine.outs cs) ++ "|" ++ showOuts (f.machine.outs cs))
     | _ => pure (showOuts (f.machine.outs cs))
+  | "c20m" :: f :: calls => do
+    let f ← parseFilter f
+    let ics ← calls.mapM parseICall
+    pure (showOuts (multiOuts f.machine ics))
   | "c20judge" :: f :: rest => do
     let f ← parseBase f
     let cs ← (rest.takeWhile (· ≠ "|")).mapM parseCall
